@@ -100,3 +100,14 @@ Fixpoint event_sum (lam inc : R) (ss : list bool) : R :=
   | s :: tl => inc * ind s * lam ^ (length tl) + event_sum lam inc tl
   end.
 
+
+(* every remaining refractory time of the population lies in [0, refrac_t] *)
+Definition bounded (p : params RN) (cs : list (column RN)) : Prop := all_cells (fun ce => 0 <= snd ce <= refrac_t RN p) cs.
+
+(* the classes with the linear (leaky) integrator, and the analytic solution of the leaky integrator under a
+   constant input x after k steps from v0 *)
+Definition linear_cls (c : cls) : Prop := c = LIF \/ c = ALIF \/ c = GLIF1 \/ c = GLIF2.
+Definition lin_u (p : params RN) (v0 x : R) (k : nat) : R :=
+  (v0 - rest_v RN p - resistance RN p * x) * Rtrigo_def.exp (- (INR k * step_time RN p) / time_constant RN p)
+  + rest_v RN p + resistance RN p * x.
+
